@@ -620,7 +620,7 @@ def run(ctx):
         "  | NMErr => Z.eqb code 1%Z | NMFuel => false end.\n")
     cases, meta = [], []
     nm_count = 800 if thorough else 60
-    for case_no in range(nm_count + 2):
+    for case_no in range(nm_count + 3):
         n = rng.randrange(1, 4)
         L = np.array([[rng.randrange(-4, 5) / 4.0 if j < i else (rng.randrange(2, 9) / 4.0 if j == i else 0.0)
                        for j in range(n)] for i in range(n)])
@@ -628,7 +628,14 @@ def run(ctx):
         c = np.array([rng.randrange(-16, 17) / 4.0 for _k in range(n)])
         k0 = rng.randrange(-8, 9) / 2.0
         x0 = c + np.array([rng.choice([-1, 1]) * rng.choice([0.25, 1.0, 2.5]) for _k in range(n)])
-        mode = rng.choice(["free", "free", "inactive", "active", "active", "fewiter", "rosenbrock", "zero_start", "badbounds"])
+        mode = rng.choice(["free", "free", "inactive", "active", "active", "fewiter", "rosenbrock", "zero_start", "badbounds", "degenerate"])
+        if mode == "degenerate":     # concave but flat in some direction: exact ties f_r == f_best occur (separates >= from >)
+            n = rng.choice([2, 3])
+            dg = [rng.choice([0.0, 1.0, 0.5, 2.0]) for _k in range(n)]
+            if all(v == 0.0 for v in dg): dg[0] = 1.0
+            A = np.diag(dg)
+            c = np.array([rng.randrange(-16, 17) / 4.0 for _k in range(n)]); k0 = 0.0
+            x0 = c + np.array([rng.choice([-1, 1]) * rng.choice([0.25, 1.0, 2.5, 0.0]) for _k in range(n)])
         bounds = np.array([[], []]).T
         if mode in ("inactive", "active", "fewiter", "badbounds"):
             lo = np.minimum(x0, c) - 1.0; hi = np.maximum(x0, c) + 1.0 + 0.06 * np.abs(x0)
@@ -653,6 +660,10 @@ def run(ctx):
             n = 3; A = np.array([[0.5625, 0.5625, 0.0], [0.5625, 0.8125, 0.5], [0.0, 0.5, 1.5625]])
             c = np.array([-2.75, -3.5, -0.75]); k0 = -2.0; x0 = np.array([-2.5, -1.0, 1.75])
             mode = "inactive"; bounds = np.array([[-3.75, -1.35], [-4.5, 0.06], [-1.75, 2.855]]); max_iter = 1000
+        if case_no == nm_count + 2:  # witness of the repaired shrink-order finding (commit 2738fce), verbatim: must now pass
+            n = 3; A = np.array([[4.0, -1.0, 0.0], [-1.0, 0.5, 0.125], [0.0, 0.125, 1.625]])
+            c = np.array([-1.25, 1.5, 1.0]); k0 = 0.0; x0 = np.array([-2.25, -1.0, 2.0])
+            mode = "active"; bounds = np.array([[-2.26, -2.15], [-2.0, 1.56], [0.0, 3.12]]); max_iter = 1000
         if mode == "rosenbrock":     # non-concave objective: correspondence + generic oracle checks only (shrink steps occur)
             n = 2; fam = 13; ps = (float(rng.choice([1, 10, 100])),)
             x0 = np.array([rng.randrange(-30, 31) / 8.0, rng.randrange(-30, 31) / 8.0])
